@@ -26,6 +26,7 @@ import (
 	"time"
 
 	bolt "go.etcd.io/bbolt"
+	"go.etcd.io/bbolt/cmd/bbolt/command"
 	berrors "go.etcd.io/bbolt/errors"
 )
 
@@ -525,6 +526,60 @@ func (r *runner) exec(line string) (cont bool) {
 		d, chk := dumpFile(dst)
 		ps := r.ps
 		r.res("ok n=%d size=%d dump=%s check=%d img=%s ps=%d", n, size, d, chk, dst, ps)
+	case "surg":
+		// repair commands of the command-line tool, run in process on the file as it is now (at rest); every command
+		// writes only its --output file
+		if r.wtx != nil {
+			r.res("busy")
+			return true
+		}
+		shaBefore := fileSHA(r.path)
+		out1 := fmt.Sprintf("%s/c%d.surg%d", r.dir, r.caseID, r.imgN)
+		r.imgN++
+		os.Remove(out1)
+		runCLI := func(args ...string) error {
+			// the commands print to os.Stdout directly
+			saved := os.Stdout
+			if dn, e := os.OpenFile(os.DevNull, os.O_WRONLY, 0); e == nil {
+				os.Stdout = dn
+				defer func() { os.Stdout = saved; dn.Close() }()
+			}
+			root := command.NewRootCommand()
+			root.SetArgs(args)
+			var sink bytes.Buffer
+			root.SetOut(&sink)
+			root.SetErr(&sink)
+			return root.Execute()
+		}
+		var err error
+		final := out1
+		switch f[1] {
+		case "abandon":
+			err = runCLI("surgery", "freelist", "abandon", r.path, "--output", out1)
+		case "rebuild":
+			err = runCLI("surgery", "freelist", "rebuild", r.path, "--output", out1)
+		case "abandon+rebuild":
+			err = runCLI("surgery", "freelist", "abandon", r.path, "--output", out1)
+			if err == nil {
+				final = out1 + ".r"
+				os.Remove(final)
+				err = runCLI("surgery", "freelist", "rebuild", out1, "--output", final)
+			}
+		case "revert":
+			err = runCLI("surgery", "revert-meta-page", r.path, "--output", out1)
+		default:
+			panic("bad surgery " + f[1])
+		}
+		if err != nil {
+			r.res("err:%s src=%v", strings.ReplaceAll(err.Error(), " ", "_"), fileSHA(r.path) == shaBefore)
+			return true
+		}
+		// the decoder sees the output BEFORE any Open touches it (a read-write Open of an abandoned file rebuilds it)
+		img := final + ".img"
+		b, _ := os.ReadFile(final)
+		_ = os.WriteFile(img, b, 0600)
+		d, chk := dumpFile(final)
+		r.res("ok dump=%s check=%d img=%s ps=%d src=%v", d, chk, img, r.ps, fileSHA(r.path) == shaBefore)
 	case "bstats":
 		tx := r.tx(f[1])
 		if tx == nil {
@@ -947,6 +1002,7 @@ type genCfg struct {
 	malformed bool
 	moves     bool
 	backups   bool
+	surgery   bool
 }
 
 // genHistory: model-guided generator. Existing buckets/keys are re-used with high probability; sizes approach
@@ -1175,6 +1231,9 @@ func genHistory(r *rng, cfg genCfg, o openOpts) []string {
 		} else {
 			L = append(L, "dump w", "commit")
 			committed = work
+		}
+		if cfg.surgery && strings.HasSuffix(L[len(L)-1], "commit") && r.chance(1, 2) {
+			L = append(L, "surg "+[]string{"abandon", "rebuild", "abandon+rebuild", "revert", "revert"}[r.intn(5)])
 		}
 		if cfg.backups && len(readers) > 0 && r.chance(1, 2) {
 			ids := make([]int, 0, len(readers))
